@@ -22,7 +22,7 @@ def witness(label, failure, seed):
     return tracks_witness("C11", label, failure, seed)
 
 
-def bounded(tier, seed):
+def _bounded(tier, seed):
     """the paint-driven UserUpdateSegmentation is under contract only at the level of abstract world states: native
     scenarios check the concrete state (graph, attributes, array, lookups, history) after every refused stroke;
     a recorded known finding is recognised by its call site and message, anything else is a violation"""
@@ -34,3 +34,8 @@ def bounded(tier, seed):
     return [bounded_harness(tier, "C11", "refused-paint", "refused edits (all seven user actions, paint strokes emphasised) must leave graph, attributes, "
                             "segmentation, lookups and history unchanged and emit nothing", seed, focus="paint", segonly=True, ignore=pats),
             bounded_paint(tier, "C11", "a refused stroke (caller restores the painted pixels) leaves graph, attributes, segmentation, lookups and history unchanged", ignore=pats)]
+
+
+def bounded(tier, seed):
+    from ._common import model_checks
+    return _bounded(tier, seed) + model_checks(tier, "networkx", shape=True, seed=seed)
